@@ -47,7 +47,14 @@ def gen_cases(tier, seed):
     else:
         idx = list(range(n62))
     # always include the largest 64 (closest to 2^62) and smallest 64
-    idx = sorted(set(idx) | set(range(64)) | set(range(n62 - 64, n62)))
+    # always: the 64 smallest / largest, and every pure prime power 2^a, 3^b, 5^c, 7^d (extreme shapes of the search)
+    pp = set()
+    for p in (2, 3, 5, 7):
+        v = p
+        while v < 2 ** 62:
+            pp.add(bisect.bisect_left(lst, v))
+            v *= p
+    idx = sorted(set(idx) | set(range(64)) | set(range(n62 - 64, n62)) | pp)
     per = 400
     for i in range(0, len(idx), per):
         yield {"kind": "around", "idx": idx[i:i + per]}
